@@ -495,8 +495,11 @@ impl Material {
 
         let mut texture_paths = vec![];
 
-        let mut offset = 0;
-        for _ in 0..mat_data.file_header.texture_count {
+        let mut offset;
+        for texture_offset in &mat_data.offsets {
+            // the low half is the offset into the string table, the high half are flags
+            offset = (*texture_offset & 0xFFFF) as usize;
+
             let mut string = String::new();
 
             let mut next_char = mat_data.strings[offset] as char;
@@ -507,8 +510,6 @@ impl Material {
             }
 
             texture_paths.push(string);
-
-            offset += 1;
         }
 
         // TODO: move to reusable function
